@@ -17,6 +17,10 @@ class Outer:
   p: Inner
   q: Bits8
 
+@bitstruct
+class Deep:
+  p: Inner
+
 class Fwd( Component ):
   def construct( s, T ):
     s.in_ = InPort( T ); s.out = OutPort( T )
@@ -205,3 +209,99 @@ def gen_M(nlanes,depth):
   a("    @update"); a("    def up_total():")
   a("      s.total @= "+" + ".join(f"s.lane[{i}][{depth}]" for i in range(nlanes)))
   return '\n'.join(L)+'\n'
+
+# ---------------------------------------------------------------------------------------------- family D: structural defects (C09)
+def family_D():
+  """(name, body, expected) ; expected = None (must elaborate) or the name of the pymtl3.dsl.errors class that must be raised.
+  Each defect comes in every order of its statements."""
+  out=[]
+  def top(lines,pre=''):
+    return pre+"class Top( Component ):\n  def construct( s ):\n"+''.join("    "+l+"\n" for l in lines)
+  P="s.in0 = InPort( Bits8 ); s.in1 = InPort( Bits8 ); s.out = OutPort( Bits8 ); s.w = Wire( Bits8 ); s.st = Wire( Outer )"
+  def blk(name,*st,ff=False): return ["@update_ff" if ff else "@update",f"def {name}():"]+["  "+x for x in st]
+  def both_orders(tag,b1,b2,rest,expected):
+    for k,(x,y) in enumerate(((b1,b2),(b2,b1))):
+      out.append((f"D[{tag};o{k}]",top([P]+x+y+rest),expected))
+  rd=blk('up_o',"s.out @= s.w")
+  both_orders('two-blocks-one-signal',blk('up_a',"s.w @= s.in0"),blk('up_b',"s.w @= s.in1"),rd,'MultiWriterError')
+  both_orders('field-and-parent',blk('up_a',"s.st.q @= s.in0"),blk('up_b',"s.st.p.x @= s.in1[0:4]","s.st.p.y @= s.in1[4:8]","s.st.q @= s.in1"),blk('up_o',"s.out @= s.st.q"),'MultiWriterError')
+  both_orders('nested-field-and-parent-field',blk('up_a',"s.st.p.x @= s.in0[0:4]"),blk('up_b',"s.st.p.x @= s.in1[0:4]"),blk('up_o',"s.out @= s.st.q"),'MultiWriterError')
+  both_orders('overlapping-slices',blk('up_a',"s.w[0:5] @= s.in0[0:5]"),blk('up_b',"s.w[4:8] @= s.in1[0:4]"),rd,'MultiWriterError')
+  both_orders('slice-and-whole',blk('up_a',"s.w[0:4] @= s.in0[0:4]"),blk('up_b',"s.w @= s.in1"),rd,'MultiWriterError')
+  both_orders('disjoint-slices',blk('up_a',"s.w[0:4] @= s.in0[0:4]"),blk('up_b',"s.w[4:8] @= s.in1[0:4]"),rd,None)
+  both_orders('disjoint-fields',blk('up_a',"s.st.q @= s.in0"),blk('up_b',"s.st.p.x @= s.in1[0:4]","s.st.p.y @= s.in1[4:8]"),blk('up_o',"s.out @= s.st.q"),None)
+  out.append(("D[one-block-overlapping-slices]",top([P]+blk('up_a',"s.w[0:5] @= s.in0[0:5]","s.w[3:8] @= s.in1[0:5]")+rd),None))
+  out.append(("D[one-block-slice-and-whole]",top([P]+blk('up_a',"s.w @= s.in1","s.w[0:4] @= s.in0[0:4]")+rd),None))
+  # ---- nets
+  both_orders('block-and-net-drive-one-signal',blk('up_a',"s.w @= s.in0"),["s.w //= s.in1"],rd,'MultiWriterError')
+  both_orders('two-nets-drive-one-signal',["connect( s.w, s.in0 )"],["connect( s.in1, s.w )"],rd,'MultiWriterError')
+  both_orders('net-drives-slice-block-drives-whole',blk('up_a',"s.w @= s.in0"),["s.w[0:4] //= s.in1[0:4]"],rd,'MultiWriterError')
+  out.append(("D[net-without-driver]",top([P,"s.v = Wire( Bits8 )","s.w //= s.v"]+rd),'NoWriterError'))
+  for k,perm in enumerate((("s.a //= s.b","s.b //= s.c","s.c //= s.a"),("s.c //= s.a","s.a //= s.b","s.b //= s.c"),("connect( s.b, s.a )","connect( s.c, s.b )","connect( s.a, s.c )"))):
+    out.append((f"D[connection-loop;o{k}]",top([P,"s.a = Wire( Bits8 ); s.b = Wire( Bits8 ); s.c = Wire( Bits8 )","s.a //= s.in0"]+list(perm)+blk('up_o',"s.out @= s.c")),'InvalidConnectionError'))
+  out.append(("D[tree-connection-no-loop]",top([P,"s.a = Wire( Bits8 ); s.b = Wire( Bits8 ); s.c = Wire( Bits8 )","s.a //= s.in0","s.b //= s.a","s.c //= s.a"]+blk('up_o',"s.out @= s.c")),None))
+  # ---- port rules
+  CH="class Ch( Component ):\n  def construct( s ):\n    s.i = InPort( Bits8 ); s.o = OutPort( Bits8 ); s.wi = Wire( Bits8 )\n    @update\n    def up_ch():\n      s.wi @= s.i\n      s.o @= s.wi\n\n"
+  def ch(tag,lines,expected,child=CH): out.append((f"D[{tag}]",top([P,"s.c = Ch()"]+lines,pre=child),expected))
+  ch('legal-parent-child',["s.c.i //= s.in0"]+blk('up_o',"s.out @= s.c.o"),None)
+  ch('parent-block-writes-child-inport',blk('up_a',"s.c.i @= s.in0")+blk('up_o',"s.out @= s.c.o"),None)
+  ch('parent-block-writes-child-outport',["s.c.i //= s.in0"]+blk('up_a',"s.c.o @= s.in0")+blk('up_o',"s.out @= s.in1"),('SignalTypeError','MultiWriterError'))
+  ch('parent-block-reads-child-wire',["s.c.i //= s.in0"]+blk('up_o',"s.out @= s.c.wi"),'SignalTypeError')
+  ch('parent-block-writes-child-wire',["s.c.i //= s.in0"]+blk('up_a',"s.c.wi @= s.in0")+blk('up_o',"s.out @= s.in1"),('SignalTypeError','MultiWriterError'))
+  ch('parent-block-writes-own-inport',["s.c.i //= s.in0"]+blk('up_a',"s.in1 @= s.in0")+blk('up_o',"s.out @= s.c.o"),'SignalTypeError')
+  ch('parent-connects-const-to-child-outport',["s.c.i //= s.in0","s.c.o //= 7"]+blk('up_o',"s.out @= s.in1"),('SignalTypeError','MultiWriterError'))
+  ch('parent-connects-const-to-child-inport',["s.c.i //= 5"]+blk('up_o',"s.out @= s.c.o"),None)
+  CH2="class Ch( Component ):\n  def construct( s ):\n    s.i = InPort( Bits8 ); s.o = OutPort( Bits8 )\n    s.i //= 5\n    s.o //= s.i\n\n"
+  ch('child-ties-own-inport-to-const',blk('up_o',"s.out @= s.c.o"),'SignalTypeError',child=CH2)
+  CH3="class G( Component ):\n  def construct( s ):\n    s.i = InPort( Bits8 ); s.o = OutPort( Bits8 )\n    s.o //= s.i\n\nclass Ch( Component ):\n  def construct( s ):\n    s.i = InPort( Bits8 ); s.o = OutPort( Bits8 ); s.g = G()\n    s.g.i //= s.i; s.o //= s.g.o\n\n"
+  ch('top-ties-grandchild-inport-to-const',["s.c.i //= s.in0","s.c.g.i //= 3"]+blk('up_o',"s.out @= s.c.o"),('SignalTypeError','MultiWriterError'),child=CH3)
+  ch('top-connects-to-grandchild-port',["s.c.i //= s.in0","s.w //= s.c.g.o"]+blk('up_o',"s.out @= s.w"),'SignalTypeError',child=CH3)
+  # ---- assignment operators
+  out.append(("D[plain-assign-in-update]",top([P]+blk('up_a',"s.w = s.in0")+rd),'UpdateBlockWriteError'))
+  out.append(("D[nonblocking-in-update]",top([P]+blk('up_a',"s.w <<= s.in0")+rd),'UpdateBlockWriteError'))
+  out.append(("D[augmented-arith-in-update]",top([P]+blk('up_a',"s.w += s.in0")+rd),'UpdateBlockWriteError'))
+  out.append(("D[blocking-in-update_ff]",top([P]+blk('ff_a',"s.w @= s.in0",ff=True)+rd),'UpdateFFBlockWriteError'))
+  out.append(("D[plain-assign-in-update_ff]",top([P]+blk('ff_a',"s.w = s.in0",ff=True)+rd),'UpdateFFBlockWriteError'))
+  out.append(("D[augmented-or-in-update_ff]",top([P]+blk('ff_a',"s.w |= s.in0",ff=True)+rd),'UpdateFFBlockWriteError'))
+  out.append(("D[plain-assign-nested-after-correct]",top([P,"s.v = Wire( Bits8 )"]+blk('up_a',"if s.in0[0]:","  s.w @= s.in0","  s.v = 2","else:","  s.w @= s.in1")+rd),'UpdateBlockWriteError'))
+  out.append(("D[plain-assign-nested-ff-after-correct]",top([P,"s.v = Wire( Bits8 )"]+blk('ff_a',"for i in range(2):","  s.w <<= s.in0","  s.v = 2",ff=True)+rd),'UpdateFFBlockWriteError'))
+  out.append(("D[field-assign-in-update_ff]",top([P]+blk('ff_a',"s.st.q <<= s.in0",ff=True)+rd[:0]+blk('up_o',"s.out @= s.in1")),'UpdateFFNonTopLevelSignalError'))
+  return out
+
+# ---------------------------------------------------------------------------------------------- family E: connection graphs (C08)
+def family_E(max_perms=6):
+  """connect statements between signals / slices / struct fields / constants over a two-level hierarchy: every permutation (up to a cap) and
+  side flip must give the same nets = connected components and the same single justified writer."""
+  import itertools, random
+  base=[]
+  # (name, declarations, connect pairs (lhs,rhs), block statements driving some member, expected groups of top-level-ish member names)
+  base.append(('chain',"s.a = Wire( Bits8 ); s.b = Wire( Bits8 ); s.c = Wire( Bits8 )",[("s.a","s.in0"),("s.b","s.a"),("s.c","s.b")],[],"s.out @= s.c"))
+  base.append(('star-const',"s.a = Wire( Bits8 ); s.b = Wire( Bits8 )",[("s.a","11"),("s.b","s.a")],[],"s.out @= s.b"))
+  base.append(('block-driven',"s.a = Wire( Bits8 ); s.b = Wire( Bits8 ); s.c = Wire( Bits8 )",[("s.b","s.a"),("s.c","s.a")],["s.a @= s.in0 + 1"],"s.out @= s.b ^ s.c"))
+  base.append(('slices',"s.a = Wire( Bits8 ); s.b = Wire( Bits4 ); s.c = Wire( Bits4 )",[("s.a","s.in0"),("s.b","s.a[0:4]"),("s.c","s.a[4:8]")],[],"s.out[0:4] @= s.b\n      s.out[4:8] @= s.c"))
+  base.append(('slice-of-slice',"s.a = Wire( Bits4 ); s.b = Wire( Bits4 )",[("s.a","s.in0[6:10]"),("s.b","s.in0[4:12][2:6]")],[],"s.out[0:4] @= s.a\n      s.out[4:8] @= s.b"))
+  base.append(('struct-fields',"s.m = Wire( Outer ); s.x = Wire( Bits4 ); s.y = Wire( Bits8 )",[("s.m.p.x","s.in0[0:4]"),("s.m.p.y","s.in0[4:8]"),("s.m.q","s.in1"),("s.x","s.m.p.x"),("s.y","s.m.q")],[],"s.out @= s.y"))
+  base.append(('struct-whole-and-deep-field',"s.m = Wire( Outer ); s.n = Wire( Outer )",[("s.m.p.x","s.in0[0:4]"),("s.m.p.y","s.in0[4:8]"),("s.m.q","s.in1"),("s.n","s.m")],[],"s.out @= s.n.q"))
+  base.append(('deep-fields-only-and-whole',"s.m = Wire( Deep ); s.n = Wire( Deep )",[("s.m.p.x","s.in0[0:4]"),("s.m.p.y","s.in0[4:8]"),("s.n","s.m")],[],"s.out[0:4] @= s.n.p.x\n      s.out[4:8] @= s.n.p.y"))
+  base.append(('child-ports',"s.f = Fwd( Bits8 ); s.g = Fwd( Bits8 ); s.a = Wire( Bits8 )",[("s.f.in_","s.in0"),("s.g.in_","s.f.out"),("s.a","s.g.out")],[],"s.out @= s.a"))
+  out=[]
+  rng=random.Random(7)
+  for name,decl,conns,drv,rd in base:
+    perms=list(itertools.permutations(range(len(conns))))
+    rng.shuffle(perms); perms=[tuple(range(len(conns)))]+perms[:max_perms-1]
+    for pi,perm in enumerate(perms):
+      for flip in (0,1,2):
+        L=["class Top( Component ):","  def construct( s ):","    s.in0 = InPort( Bits16 ) if False else InPort( Bits8 ); s.in1 = InPort( Bits8 ); s.out = OutPort( Bits8 )"]
+        if name=='slice-of-slice': L[2]="    s.in0 = InPort( Bits16 ); s.in1 = InPort( Bits8 ); s.out = OutPort( Bits8 )"
+        L.append("    "+decl)
+        for j,ci in enumerate(perm):
+          l,r=conns[ci]
+          swap = (flip==1) or (flip==2 and j%2==1)
+          if swap and not r.isdigit(): l,r=r,l
+          use_connect = (j+pi)%2 or l.count('.')>1 or l.isdigit()      # the DSL has no //= on struct-field / constant left-hand sides
+          L.append(f"    connect( {l}, {r} )" if use_connect else f"    {l} //= {r}")
+        if drv:
+          L+=["    @update","    def up_drv():"]+["      "+d for d in drv]
+        L+=["    @update","    def up_o():","      "+rd]
+        out.append((f"E[{name};p{pi};f{flip}]",'\n'.join(L)+'\n',name))
+  return out
